@@ -19,6 +19,27 @@ def dummySm : Relax.Smoother Rat Unit :=
   { setup := fun _ => .ok (), applyPre := fun _ _ _ x t => (x, t), applyPost := fun _ _ _ x t => (x, t),
     apply := fun _ _ f => f }
 
+/-- is the dense matrix nonsingular? (Gaussian elimination with row search over `Rat`).  Interim stand-in for the
+zero-pivot outcome of the skyline LU constructor: every elimination order hits a zero pivot on a singular matrix;
+a non-singular matrix with a vanishing leading minor in Cuthill–McKee order is outside what the generators produce. -/
+def nonsingular (A : CRS Rat) : Bool :=
+  let n := A.nrows
+  let M : Array (Array Rat) := Array.ofFn (n := n) (fun i => Array.ofFn (n := n) (fun j => A.get i.val j.val))
+  let r := (List.range n).foldl (fun (st : Array (Array Rat) × Bool) k =>
+    if !st.2 then st else
+    match (List.range n).find? (fun i => i ≥ k && (st.1.getD i #[]).getD k 0 ≠ 0) with
+    | none => (st.1, false)
+    | some p =>
+      let rowp := st.1.getD p #[]
+      let rowk := st.1.getD k #[]
+      let M1 := (st.1.setIfInBounds p rowk).setIfInBounds k rowp
+      let piv := rowp.getD k 0
+      let M2 := M1.mapIdx (fun i row => if i > k then
+          let f := row.getD k 0 / piv
+          row.mapIdx (fun j v => v - f * rowp.getD j 0) else row)
+      (M2, true)) (M, true)
+  r.2
+
 structure Hdr where
   kind : Nat
   s : Rat
@@ -63,16 +84,16 @@ def handle (op : String) (args : List String) : Option String :=
   match op with
   | "amg_build" => withArgs pHdr args fun h =>
       if !hdrOk h then badInput else
-      match build h.prm (policy h) dummySm h.A with
+      match build h.prm (policy h) dummySm nonsingular h.A with
       | .ok ls => showLevels ls
       | .error e => showErr e
   | "amg_rebuild" => withArgs (do let h ← pHdr; let k ← pNat; let As ← pMany k pCRS; pure (h, As)) args fun (h, As) =>
       if !hdrOk h || !As.all (·.wfb) then badInput else
-      match build h.prm (policy h) dummySm h.A with
+      match build h.prm (policy h) dummySm nonsingular h.A with
       | .error e => showErr e
       | .ok ls =>
         let step := fun (st : List (Level Rat Unit) × List String) (A' : CRS Rat) =>
-          match rebuild h.prm (policy h) dummySm st.1 A' with
+          match rebuild h.prm (policy h) dummySm nonsingular st.1 A' with
           | .ok ls' => (ls', st.2 ++ ["|", showLevels ls'])
           | .error e => (st.1, st.2 ++ ["|", showErr e])
         joinSp (As.foldl step (ls, [showLevels ls])).2
